@@ -252,6 +252,10 @@ type Target struct {
 	// (entry points that build an AST themselves route only the error handler) and
 	// return a string rendering of the parse result (semantic value or tree).
 	Parse func(ctx context.Context, input string, rec *recorder) (val string, err error)
+	// NewSession, when set, returns a parse function bound to ONE set of parser / lexer /
+	// token stream objects that is reused from call to call, the way a long-lived caller
+	// reuses them. A parse after a cancelled parse must behave like any other parse.
+	NewSession func() func(ctx context.Context, input string, rec *recorder) (val string, err error)
 	// TokenEnds lexes input with the package's lexer alone and returns token end offsets.
 	TokenEnds func(input string) []int
 	// Gen produces an input of roughly ntok tokens: a flat list of short top-level items
@@ -651,6 +655,49 @@ func (engine) Run(src *sim.Src, log *sim.Log, res *sim.Result) {
 			}
 			sched = append(sched, fmt.Sprintf("%c%d%s", fk, pb, oc))
 			res.States = append(res.States, fmt.Sprintf("%s|%v|%c|%d|%s|%d", t.Name, valid, fk, pb, oc, ek))
+		}
+	}
+	// reuse of parser objects: a cancelled parse, then an ordinary one with the same objects
+	if t.NewSession != nil && res.Violation == nil && src.Chance(1, 3) {
+		sess := t.NewSession()
+		fireAt := -2
+		if len(pollIdx) > 0 && src.Chance(2, 3) {
+			fireAt = pollIdx[src.Draw(len(pollIdx))]
+		} else if ref.ticks > 0 && src.Chance(1, 2) {
+			fireAt = src.Draw(ref.ticks)
+		}
+		ctx := newSimCtx(errKind(src.Draw(3)), fireAt)
+		rec := &recorder{ctx: ctx, ref: rrec.ev, diverged: -1, stopAt: stopAt}
+		if rrec.ev == nil {
+			rec.ref = []event{}
+		}
+		ctx.rec = rec
+		if fireAt == -2 {
+			ctx.fire('0')
+		}
+		sess1 := func() (string, error, string) {
+			tt := *t
+			tt.Parse = sess
+			return safeParse(&tt, ctx, input, rec)
+		}
+		_, err1, pnc1 := sess1()
+		ctx2 := newSimCtx(errCanceled, -1)
+		rec2 := &recorder{ctx: ctx2, ref: rrec.ev, diverged: -1, stopAt: stopAt}
+		if rrec.ev == nil {
+			rec2.ref = []event{}
+		}
+		ctx2.rec = rec2
+		tt := *t
+		tt.Parse = sess
+		val2, err2, pnc2 := safeParse(&tt, ctx2, input, rec2)
+		res.Steps += ctx.nticks + ctx2.nticks
+		same2 := pnc2 == "" && rec2.diverged < 0 && rec2.n == ref.n && val2 == ref.val && sameErr(err2, ref.err)
+		log.Printf("reuse: cancelled parse (fireAt=%d) -> err=%s panic=%q; next parse with the same objects -> err=%s events=%d diverged=%d same=%v", fireAt, errString(err1), pnc1, errString(err2), rec2.n, rec2.diverged, same2)
+		res.Probe("reuse:parse-after-cancelled-parse")
+		if !same2 {
+			res.Fail("C29.safety", "stale-state-after-cancel:"+t.Name,
+				"target %s: after a cancelled parse (cancel at tick %d, returned %s) the next, never-cancelled parse with the SAME parser objects returned err=%s panic=%q, %d events (first divergence at %d), value %.60q; a parse with fresh objects returns err=%s, %d events, value %.60q",
+				t.Name, fireAt, errString(err1), errString(err2), pnc2, rec2.n, rec2.diverged, val2, errString(ref.err), ref.n, ref.val)
 		}
 	}
 	sort.Strings(sched)
